@@ -210,9 +210,10 @@ Definition inspect (loop : stmt) (red_first : list nat) (firsts : string -> list
 Definition column (r : rel) (c : list nat) (col : nat) : list Sc :=
   map (fun i => cell (simple_matrix r c) i col) (seq 0 (length (rvars r))).
 
-(* names of the rows whose entry in the column is [s], in row order *)
-Definition rows_with (vars : list string) (colv : list Sc) (s : Sc) : list string :=
-  map fst (filter (fun vs => sc_eqb (snd vs) s) (combine vars colv)).
+(* names of the rows whose entry in the column of variable number [col] is [s], in row order *)
+Definition rows_with (r : rel) (c : list nat) (col : nat) (s : Sc) : list string :=
+  map (fun i => nth i (rvars r) EmptyString)
+      (filter (fun i => sc_eqb (cell (simple_matrix r c) i col) s) (seq 0 (length (rvars r)))).
 
 (* level number of a ladder attribute and the scalars a level excludes (besides infinity) *)
 Definition level_of (a : attr) : nat := match a with IS_M => 0 | IS_W => 1 | IS_P => 2 end.
@@ -228,3 +229,17 @@ Definition flags_of_level (k : nat) : vflags :=
 
 (* the delta lists of column [col] at ladder level [k] *)
 Definition level_seqs (r : rel) (col k : nat) : choices_repr := col_infinity_deltas r col (excluded k).
+
+(* the variables for which var_eval (no scalar excluded) is infinite, and their row numbers *)
+Definition col_failing (r : rel) (index : nat) (v : string) : bool :=
+  match index_of_str v (rvars r) with
+  | Some col => choices_infinite index (level_seqs r col 2)
+  | None => false
+  end.
+Definition fail_vars (r : rel) (index : nat) : list string := filter (col_failing r index) (rvars r).
+Definition rest_vars (r : rel) (index : nat) : list string :=
+  filter (fun v => negb (mem_strb v (fail_vars r index))) (rvars r).
+Definition fail_rows (r : rel) (index : nat) : list nat := map (fun v => index_or0 v (rvars r)) (fail_vars r index).
+(* what choice_reduce of the remaining variables accepts *)
+Definition red_seqs (r : rel) (index : nat) : choices_repr :=
+  flat_map (fun v => level_seqs r (index_or0 v (rvars r)) 2) (rest_vars r index).
